@@ -39,6 +39,7 @@ def run(ctx):
     import numpy as np
     import icontract
     from dtaidistance.subsequence import subsequencealignment as sa_mod
+    monitors.guard_backtracking(ctx)      # bounded progress for every back-tracking call, wherever it is made
     dtw_cc = sa_mod.dtw_cc
     from dtaidistance.subsequence.subsequencealignment import SubsequenceAlignment, subsequence_alignment
     rng = ctx.rng
